@@ -172,6 +172,18 @@ pub fn clash_program(seed: u64) -> String {
         }
     }
     if rng.chance(1, 2) { s += &format!("struct {} {{ int m; }};\n", base); uses += &format!("    {} z; z.m = 3; r += z.m;\n", base); }
+    // locals called like the names the generator hands out (`name_0`, `name_1`): in a free function next to the uses,
+    // and in a method that calls overloaded methods of its struct by their bare names
+    if rng.chance(1, 2) {
+        let k = rng.below(3);
+        uses += &format!("    int {}_{} = {}; r += {}_{};\n", base, k, 40 + k, base, k);
+    }
+    if rng.chance(1, 2) {
+        let m = *rng.pick(&["scale", "f", "get"]);
+        let k = rng.below(2);
+        s += &format!("struct Ov{} {{ float w; float {}(int v) {{ return v * w; }} float {}(float v) {{ return v * w * 0.5f; }} float both() {{ float {}_{} = 3.0f; return {}(1) + {}(2.0f) + {}_{}; }} }};\n", k, m, m, m, k, m, m, m, k);
+        uses += &format!("    Ov{} ov; ov.w = 2.0f; r += (int)ov.both();\n", k);
+    }
     format!("{}int run() {{\n    int r = 0;\n{}    return r;\n}}\n", s, uses)
 }
 
